@@ -471,3 +471,103 @@ func raceShutdownVsView(del bool, background bool) {
 func Harness_C20_deleteVsViewUpdate()           { raceShutdownVsView(true, false) }
 func Harness_C20_deleteVsBackgroundViewUpdate() { raceShutdownVsView(true, true) }
 func Harness_C20_closeVsViewUpdate()            { raceShutdownVsView(false, false) }
+
+// C15, several collections: feeds of different collections that share a checkpoint prefix
+// and ID (what Bucket.StartDCPFeed creates) resume independently: a collection's run is not
+// cut short by what another collection's feed has checkpointed.
+func Harness_C15_perCollection() {
+	le := lifeBegin(true)
+	ctx := context.Background()
+	// the named collection's document is older (lower CAS) than the default collection's
+	verifAssert(le.o1.SetRaw("a", 0, nil, []byte("va")) == nil, "write succeeds")
+	verifAssert(le.c1.SetRaw("b", 0, nil, []byte("vb")) == nil, "write succeeds")
+	var seenO []verifSeen
+	cbO := func(ev sgbucket.FeedEvent) bool {
+		seenO = append(seenO, verifSeen{key: string(ev.Key), cas: ev.Cas, op: ev.Opcode})
+		return true
+	}
+	runFeed := func(c *Collection, cb sgbucket.FeedEventCallbackFunc) {
+		term := make(chan bool)
+		args := sgbucket.FeedArguments{ID: "f", Backfill: sgbucket.FeedResume, CheckpointPrefix: "cp", Terminator: term}
+		verifAssert(c.StartDCPFeed(ctx, args, cb, nil) == nil, "feed starts in resume mode")
+		verifJoin()
+		close(term)
+		verifJoin()
+	}
+	// either collection's feed may run (and checkpoint) first
+	if verifBool("defaultFirst") {
+		runFeed(le.c2, le.callback)
+		runFeed(le.o1, cbO)
+	} else {
+		runFeed(le.o1, cbO)
+		runFeed(le.c2, le.callback)
+	}
+	da := verifGetDoc(le.h1.sqliteDB, int64(le.o1.GetCollectionID())+1, "a")
+	db := verifGetDoc(le.h1.sqliteDB, 1, "b")
+	foundA, foundB := false, false
+	for _, s := range seenO {
+		foundA = foundA || (s.key == "a" && s.cas == uint64(da.Cas))
+	}
+	for _, s := range le.seen {
+		foundB = foundB || (s.key == "b" && s.cas == uint64(db.Cas))
+	}
+	verifAssert(foundA, "the named collection's feed delivers its document whatever another collection's feed checkpointed")
+	verifAssert(foundB, "the default collection's feed delivers its document whatever another collection's feed checkpointed")
+	// each checkpoint is bounded by what that collection's feed delivered
+	var maxO uint64
+	for _, s := range seenO {
+		if s.cas > maxO {
+			maxO = s.cas
+		}
+	}
+	var cp checkpoint
+	if _, err := le.o1.Get("cp:f", &cp); err == nil {
+		verifAssert(cp.LastSeq <= maxO, "the named collection's checkpoint never exceeds the highest CAS its feed delivered")
+	}
+	verifAssert(verifLiveThreads() == 0, "no feed goroutine is left")
+	verifReach("done")
+}
+
+// the same through the multi-collection entry point: stop, write to both collections, restart
+func Harness_C15_multiCollectionResume() {
+	le := lifeBegin(true)
+	ctx := context.Background()
+	var got []verifSeen
+	cb := func(ev sgbucket.FeedEvent) bool {
+		got = append(got, verifSeen{key: string(ev.Key), cas: ev.Cas, op: ev.Opcode})
+		return true
+	}
+	start := func() chan bool {
+		term := make(chan bool)
+		args := sgbucket.FeedArguments{ID: "m", Backfill: sgbucket.FeedResume, CheckpointPrefix: "cp", Terminator: term,
+			Scopes: map[string][]string{"_default": {"_default"}, "sc": {"c1"}}}
+		verifAssert(le.h2.StartDCPFeed(ctx, args, cb, nil) == nil, "multi-collection feed starts in resume mode")
+		return term
+	}
+	verifAssert(le.o1.SetRaw("a", 0, nil, []byte("va")) == nil, "write succeeds")
+	term := start()
+	verifJoin()
+	close(term)
+	verifJoin()
+	// while the feed is down: a write to each collection, in either order
+	if verifBool("namedFirst") {
+		verifAssert(le.o1.SetRaw("a2", 0, nil, []byte("v")) == nil, "write succeeds")
+		verifAssert(le.c1.SetRaw("b2", 0, nil, []byte("v")) == nil, "write succeeds")
+	} else {
+		verifAssert(le.c1.SetRaw("b2", 0, nil, []byte("v")) == nil, "write succeeds")
+		verifAssert(le.o1.SetRaw("a2", 0, nil, []byte("v")) == nil, "write succeeds")
+	}
+	term = start()
+	verifJoin()
+	for _, key := range []string{"a", "a2", "b2"} {
+		found := false
+		for _, s := range got {
+			found = found || s.key == key
+		}
+		verifAssert(found, "taken together the runs deliver every document of every requested collection")
+	}
+	close(term)
+	verifJoin()
+	verifAssert(verifLiveThreads() == 0, "no feed goroutine is left")
+	verifReach("done")
+}
